@@ -36,7 +36,7 @@ PROPS = {
                  'the first-order-rotation velocity integral (derived by polynomial integration)'],
         undecided=['order of accuracy on general (sinusoidal) signals (a limit statement)']),
     'C17': dict(
-        rules=[names.len_dispatch, rot.rot_series, rot.rot_exp, rot.euler_inv, rot.angle_range, rot.euler_conv, errmodel.es_first,
+        rules=[names.len_dispatch, names.form_squeeze, rot.rot_series, rot.rot_exp, rot.euler_inv, rot.angle_range, rot.euler_conv, errmodel.es_first,
                geo.unit_const, lambda c: forms.form_agree(c, ('error_model', 'transform'), 2)],
         decided=['single triples and stacks are told apart by ndim, never by the length of the leading axis; no divisor of the closed-form rotation coefficients vanishes on its arm',
                  'small-angle arm is the Maclaurin truncation of the closed form and continuous '
@@ -180,7 +180,7 @@ PROPS = {
         undecided=['exactness of scipy.linalg.expm', 'symmetry/PSD of the computed product in '
                    'floating point', 'composition over partitions (numerical)']),
     'C19': dict(
-        rules=[names.len_dispatch, purity.pur_rules, purity.rng_src, purity.rng_seed, purity.rng_fwd, purity.sch_rules, dtype.dtype_inherit,
+        rules=[names.len_dispatch, names.form_squeeze, purity.pur_rules, purity.rng_src, purity.rng_seed, purity.rng_fwd, purity.sch_rules, dtype.dtype_inherit,
                forms.form_agree,
                forms.form_agree_tables, forms.util_prod, layout.est_rules, sensor.sm_accum,
                diff.wrap_rules, smmodel.sm_model, smmodel.sm_params, layout.result_form],
@@ -292,7 +292,7 @@ PROPS = {
         undecided=['bit-identity with plain integration (floating point: solve(I, v - 0*dt))',
                    'second-order agreement with the feedforward filter']),
     'C16': dict(
-        rules=[names.len_dispatch, kernel.sib_grav, geo.geo_frame, geo.geo_perturb, geo.geo_curv, geo.parity,
+        rules=[names.len_dispatch, names.form_squeeze, kernel.sib_grav, geo.geo_frame, geo.geo_perturb, geo.geo_curv, geo.parity,
                geo.role_radii, geo.parity_ecef, geo.olson_rules, geo.wgs_const,
                lambda c: forms.form_agree(c, ('earth', 'transform')),
                lambda c: dtype.dtype_inherit(c, ('transform', 'earth'))],
@@ -399,7 +399,8 @@ def run(ctx):
                                    lambda c: names.arg_order(c, anchored),
                                    lambda c: names.col_byname(c, anchored),
                                    lambda c: names.global_state(c, anchored),
-                                   lambda c: names.time_rtol(c, anchored)]
+                                   lambda c: names.time_rtol(c, anchored),
+                                   lambda c: names.zero_by_sum(c, anchored)]
     # shared mutable state in the anchored modules makes every for-all-inputs claim depend on the
     # calls made before (two seeds - C06 round 2, C05 round 5 - hid a work buffer in a class
     # constant): PUR-GLOBAL on the anchored modules, unless the property runs it already
